@@ -72,6 +72,12 @@ META = {
         "A second stage in virtual time (testing/synctest) checks that a blocked NewConn fails at exactly the instant its context ends, for every 7th stall offset." + HELD,
         "Only schedules the Go runtime produced; the evidence reports how many trials had the watcher scheduled after NewConn's work was done and the context had ended (late_watcher_* counters, floor 200).",
         "runtime monitor: sequence-numbered transport/context taps under scheduler stress (GOMAXPROCS sweep) + virtual-time promptness check"),
+    "C16": M("exploration", "§6 C16",
+        "Sequential histories (resolve, clock steps at ttl-1/ttl/ttl+1, zone changes incl. CNAME repointing, failure on/off, cache resizing) on a virtual clock (hook VerifSetClock) against a versioned fake DoH zone whose answers identify the data version "
+        "they came from, judged by an exact model with the server's query log (never stale, failures not cached, re-query after expiry, no upstream query within TTL; smallest TTL over ALL records of the response incl. CNAMEs and extras, 0 = uncacheable); "
+        "concurrent phases of 2..16 goroutines with held/released upstream queries whose recorded call/return histories are checked per (name, qtype) with porcupine against a nondeterministic cache model; the same workload under the race detector (stage race)." + HELD,
+        "Clock and zone change only at barriers in the concurrent part; porcupine Unknown (60 s) would be inconclusive; responses without any record may be cached up to 300 s.",
+        "runtime monitor: model-based history checking (exact model + porcupine linearizability) over recorded call logs, virtual clock hook, race detector"),
     "C17": M("exploration", "§6 C17",
         "Runs Dial against generated DNS universes served by a fake DoH server with a recording DialFunc that returns scripted outcomes (ok, error, ECH rejection with/without retry configs, repeated rejection); an oracle over the invocation log checks: "
         "no attempt without an ECH list under RequireECH, caller list/ServerName never replaced, list provenance per HTTPS record (computed from the zone model, not from the code under test), ServerName = the caller's host, exactly one retry "
